@@ -633,7 +633,9 @@ func decodeArray(raw []byte, elemOid int) []interface{} {
 	dataStart := 12 + ndim*8
 	if dataoff > 0 {
 		nullBitmap = raw[dataStart : dataStart+(total+7)/8]
-		dataStart = dataoff
+		// dataoffset is counted from the start of the datum, i.e. it includes the
+		// 4-byte varlena header that the caller has already stripped from raw.
+		dataStart = dataoff - 4
 	}
 
 	elemLen, fixed := fixedLengths[elemOid]
